@@ -271,9 +271,9 @@ func needParens(parent *node, pos int, child *node) need {
 // ---- printing --------------------------------------------------------------------------------
 
 type style struct {
-	mode  string // "min" | "full" | "redundant"
-	minus string // "spaced" | "right" (a -1) | "tight" (a-1): spelling of binary + and -
-	extra *node  // min mode: additionally parenthesise this node (localisation of a finding)
+	mode   string // "min" | "full" | "redundant"
+	minus  string // "spaced" | "right" (a -1) | "tight" (a-1): spelling of binary + and -
+	extra  *node  // min mode: additionally parenthesise this node (localisation of a finding)
 	extra2 *node
 }
 
